@@ -836,6 +836,18 @@ package vm
 //@ ensures [no-state-write] c16Sigma == old(c16Sigma) && c16Snap == old(c16Snap) && c16Next == old(c16Next)
 
 // ---------------------------------------------------------------------------------------------------------------
+// Stipend / charge pairing ("gas returned never exceeds gas supplied", "gas accounted exactly"): CALL and CALLCODE hand the callee
+// evm.callGasTemp plus a FREE stipend when they transfer value. That gas is paid for only because the dynamic gas function of the
+// same instruction charged callGasTemp plus CallValueTransferGas for the SAME condition: one predicate, c16ValueCall, is used in the
+// gas function's [value-transfer-charged] and in the opcode's [stipend-only-with-charged-transfer]; with CallStipend <
+// CallValueTransferGas ([stipend-covered]) the gas handed to the callee is at most the gas the frame paid for the instruction.
+// The jump table rows that pair the functions are proved on the constructors ([call-gas-wiring]).
+// ---------------------------------------------------------------------------------------------------------------
+// the value operand (third from the top when the gas function and the opcode function are entered) is not zero
+//@ spec func c16ValueCall(stack: *Stack) bool = big(stack.data[len(stack.data) - 3]) != 0
+//@ lemma [C16.stipend-covered] params.CallStipend < params.CallValueTransferGas
+
+// ---------------------------------------------------------------------------------------------------------------
 // The call family: not flagged `writes`; in read-only mode they change nothing because the frame constructors pass the
 // mode down ([static] of Call & co.). Gas plumbing: what comes back is added to what was left after the dynamic gas step
 // deducted evm.callGasTemp; it never exceeds the gas passed (callGasTemp, plus the 2300 stipend for a value transfer).
@@ -847,6 +859,9 @@ package vm
 //@ requires [evm-ok] c16EvmOK(interpreter.evm) && c16Interp(interpreter.evm) == interpreter && 0 <= interpreter.evm.depth
 //@ requires [apart] interpreter.intPool != nil && interpreter.intPool.pool != nil && interpreter.intPool.pool != stack &&
 //@                  base(interpreter.intPool.pool.data) != base(stack.data)                  // C15's ownership invariant (c15Apart)
+//@ let vc = c16ValueCall(stack)
+//@ let cgt = interpreter.evm.callGasTemp
+//@ assert before call (*EVM).Call: [stipend-only-with-charged-transfer] (big(a5) == 0 ==> a4 == cgt) && (big(a5) != 0 ==> vc && a4 == wrap64(cgt + params.CallStipend))
 //@ modifies all, c16Sigma, c16Snap, c16Next
 //@ ensures [static] old(interpreter.readOnly) && old(big(stack.data[len(stack.data) - 3])) == 0 ==> c16Sigma == old(c16Sigma)
 //@ ensures [value]  c16Total(c16Sigma) <= c16Total(old(c16Sigma))
@@ -858,6 +873,11 @@ package vm
 //@ func opCallCode props C16
 //@ requires interpreter != nil && contract != nil && stack != nil
 //@ requires [evm-ok] c16EvmOK(interpreter.evm) && c16Interp(interpreter.evm) == interpreter && 0 <= interpreter.evm.depth
+//@ requires [apart] interpreter.intPool != nil && interpreter.intPool.pool != nil && interpreter.intPool.pool != stack &&
+//@                  base(interpreter.intPool.pool.data) != base(stack.data)                  // C15's ownership invariant (c15Apart)
+//@ let vc = c16ValueCall(stack)
+//@ let cgt = interpreter.evm.callGasTemp
+//@ assert before call (*EVM).CallCode: [stipend-only-with-charged-transfer] (big(a5) == 0 ==> a4 == cgt) && (big(a5) != 0 ==> vc && a4 == wrap64(cgt + params.CallStipend))
 //@ modifies all, c16Sigma, c16Snap, c16Next
 //@ ensures [static] old(interpreter.readOnly) ==> c16Sigma == old(c16Sigma)
 //@ ensures [value]  c16Total(c16Sigma) <= c16Total(old(c16Sigma))
@@ -928,12 +948,22 @@ package vm
 // ---------------------------------------------------------------------------------------------------------------
 
 //@ func gasCall props C16
+//@ requires evm != nil && contract != nil && stack != nil && mem != nil
+//@ let vc = c16ValueCall(stack)
 //@ modifies all
 //@ ensures [no-state-write] c16Sigma == old(c16Sigma) && c16Snap == old(c16Snap) && c16Next == old(c16Next)
+//@ ensures [forwarded-gas-charged]   result1 == nil ==> result0 >= evm.callGasTemp
+//@ ensures [value-transfer-charged]  result1 == nil && vc ==> result0 >= params.CallValueTransferGas + evm.callGasTemp
+//@ ensures [no-charge-on-error]      result1 != nil ==> result0 == 0
 
 //@ func gasCallCode props C16
+//@ requires evm != nil && contract != nil && stack != nil && mem != nil
+//@ let vc = c16ValueCall(stack)
 //@ modifies all
 //@ ensures [no-state-write] c16Sigma == old(c16Sigma) && c16Snap == old(c16Snap) && c16Next == old(c16Next)
+//@ ensures [forwarded-gas-charged]   result1 == nil ==> result0 >= evm.callGasTemp
+//@ ensures [value-transfer-charged]  result1 == nil && vc ==> result0 >= params.CallValueTransferGas + evm.callGasTemp
+//@ ensures [no-charge-on-error]      result1 != nil ==> result0 == 0
 
 //@ func gasDelegateCall props C16
 //@ modifies all
@@ -1059,24 +1089,28 @@ package vm
 
 //@ func newFrontierInstructionSet props C16
 //@ modifies nothing
+//@ ensures [call-gas-wiring] result[CALL].execute == opCall && result[CALL].dynamicGas == gasCall && result[CALLCODE].execute == opCallCode && result[CALLCODE].dynamicGas == gasCallCode
 //@ ensures [table-ok] c16TableOK(result)
 //@ ensures [writers-flagged] result[SSTORE].execute == opSstore && result[SSTORE].writes && result[SELFDESTRUCT].execute == opSuicide && result[SELFDESTRUCT].writes && result[CREATE].execute == opCreate && result[CREATE].writes &&
 //@     result[LOG0].writes && result[LOG1].writes && result[LOG2].writes && result[LOG3].writes && result[LOG4].writes && result[CALL].execute == opCall
 
 //@ func newHomesteadInstructionSet props C16
 //@ modifies nothing
+//@ ensures [call-gas-wiring] result[CALL].execute == opCall && result[CALL].dynamicGas == gasCall && result[CALLCODE].execute == opCallCode && result[CALLCODE].dynamicGas == gasCallCode
 //@ ensures [table-ok] c16TableOK(result)
 //@ ensures [writers-flagged] result[SSTORE].execute == opSstore && result[SSTORE].writes && result[SELFDESTRUCT].execute == opSuicide && result[SELFDESTRUCT].writes && result[CREATE].execute == opCreate && result[CREATE].writes &&
 //@     result[LOG0].writes && result[LOG1].writes && result[LOG2].writes && result[LOG3].writes && result[LOG4].writes && result[CALL].execute == opCall
 
 //@ func newByzantiumInstructionSet props C16
 //@ modifies nothing
+//@ ensures [call-gas-wiring] result[CALL].execute == opCall && result[CALL].dynamicGas == gasCall && result[CALLCODE].execute == opCallCode && result[CALLCODE].dynamicGas == gasCallCode
 //@ ensures [table-ok] c16TableOK(result)
 //@ ensures [writers-flagged] result[SSTORE].execute == opSstore && result[SSTORE].writes && result[SELFDESTRUCT].execute == opSuicide && result[SELFDESTRUCT].writes && result[CREATE].execute == opCreate && result[CREATE].writes &&
 //@     result[LOG0].writes && result[LOG1].writes && result[LOG2].writes && result[LOG3].writes && result[LOG4].writes && result[CALL].execute == opCall && result[STATICCALL].execute == opStaticCall
 
 //@ func newConstantinopleInstructionSet props C16
 //@ modifies nothing
+//@ ensures [call-gas-wiring] result[CALL].execute == opCall && result[CALL].dynamicGas == gasCall && result[CALLCODE].execute == opCallCode && result[CALLCODE].dynamicGas == gasCallCode
 //@ ensures [table-ok] c16TableOK(result)
 //@ ensures [writers-flagged] result[SSTORE].execute == opSstore && result[SSTORE].writes && result[SELFDESTRUCT].execute == opSuicide && result[SELFDESTRUCT].writes && result[CREATE].execute == opCreate && result[CREATE].writes &&
 //@     result[LOG0].writes && result[LOG1].writes && result[LOG2].writes && result[LOG3].writes && result[LOG4].writes && result[CALL].execute == opCall && result[STATICCALL].execute == opStaticCall &&
@@ -1084,6 +1118,7 @@ package vm
 
 //@ func newIstanbulInstructionSet props C16
 //@ modifies nothing
+//@ ensures [call-gas-wiring] result[CALL].execute == opCall && result[CALL].dynamicGas == gasCall && result[CALLCODE].execute == opCallCode && result[CALLCODE].dynamicGas == gasCallCode
 //@ ensures [table-ok] c16TableOK(result)
 //@ ensures [writers-flagged] result[SSTORE].execute == opSstore && result[SSTORE].writes && result[SELFDESTRUCT].execute == opSuicide && result[SELFDESTRUCT].writes && result[CREATE].execute == opCreate && result[CREATE].writes &&
 //@     result[LOG0].writes && result[LOG1].writes && result[LOG2].writes && result[LOG3].writes && result[LOG4].writes && result[CALL].execute == opCall && result[STATICCALL].execute == opStaticCall &&
